@@ -435,6 +435,7 @@ impl Property for C20 {
     }
     fn rule(&self) -> &'static str {
         "case = history of 0..6 add operations over {instance, parametric instance, solution state, sample set} with generated messages (including default/empty ones and the same message added twice, a variables-only template as instance and as parametric instance, 1.6-layout sample sets, foreign layers of other media types in between) and annotation maps built through the typed setters (title, comma-free authors, creation time with sub-second part (also before 1970), authors with outer blanks, licence, dataset, counts, start/end, digests, JSON parameters, user-defined keys incl. non-ASCII values), built as an unnamed local OCI archive, checked after build() and after re-opening the file | a non-OMMX image built with ocipkg's own builders (foreign artifact type; plain image manifest without artifactType, with and without a layer claiming an OMMX media type); \
+         the process runs under a local time zone other than UTC (NST3:30 for even VERIF_SEED, JST-9 for odd; recorded in replay files); \
          oracle = in-memory model: ordered list of (media type, message, annotations); non-trivial = >=3 layers of >=2 kinds with a non-empty annotation map; distinct = sha256(history)"
     }
     fn required_labels(&self) -> Vec<String> {
